@@ -230,11 +230,14 @@ fn build_intact(rng: &mut Rng, big: bool, with_decoy: bool) -> (Layout, String) 
     let mut b: Vec<u8> = b"%PDF-1.4\n%\xE2\xE3\xCF\xD3\n".to_vec();
     let style = rng.below(4) as u8;
     let n_pages = 1 + rng.below(3) as u32;
-    // numbers: 1 catalog, 2 pages, then per page: page + contents, then info, extras
+    let mut notes = vec![];
+    // generation numbers other than 0 (outside the property's class, kept for the model tie)
+    let allow_gen = rng.chance(1, 10);
+    // numbers: catalog = 1 (or the highest number), pages = 2, then per page: page + contents,
+    // then info, extras
     let mut bodies: Vec<(u32, u16, Vec<u8>)> = vec![];
     let mut next = 3u32;
     let mut kids = vec![];
-    let mut notes = vec![];
     for _ in 0..n_pages {
         let page = next;
         let cont = next + 1;
@@ -269,14 +272,32 @@ fn build_intact(rng: &mut Rng, big: bool, with_decoy: bool) -> (Layout, String) 
     for k in 0..extras {
         let n = next;
         next += 1;
-        let gen = if rng.chance(1, 6) { 1 + rng.below(3) as u16 } else { 0 };
+        let gen = if allow_gen && rng.chance(1, 2) { 1 + rng.below(3) as u16 } else { 0 };
         bodies.push((n, gen, format!("<< /Extra {} /Ref {} 0 R >>", k, 1 + rng.below(n as u64)).into_bytes()));
     }
-    let cat_gen = if rng.chance(1, 12) { 1 } else { 0 };
+    // the catalog: object 1, or (1 in 4) the highest number with a filler as object 1
+    let cat_num = if rng.chance(1, 4) {
+        let c = next;
+        next += 1;
+        bodies.push((1, 0, b"<< /Filler true >>".to_vec()));
+        notes.push("cathigh".into());
+        c
+    } else {
+        1
+    };
+    let cat_gen = if allow_gen && rng.chance(1, 2) { 1 } else { 0 };
     if cat_gen != 0 {
         notes.push("catgen".into());
     }
-    bodies.push((1, cat_gen, b"<< /Type /Catalog /Pages 2 0 R >>".to_vec()));
+    let cat_body = match rng.below(4) {
+        0 => {
+            notes.push("catcompact".into());
+            "<</Type/Catalog/Pages 2 0 R>>".to_string()
+        }
+        1 => "<< /Pages 2 0 R /Type /Catalog >>".to_string(),
+        _ => "<< /Type /Catalog /Pages 2 0 R >>".to_string(),
+    };
+    bodies.push((cat_num, cat_gen, cat_body.into_bytes()));
     bodies.push((
         2,
         0,
@@ -290,52 +311,93 @@ fn build_intact(rng: &mut Rng, big: bool, with_decoy: bool) -> (Layout, String) 
     // where to put the big padding so that a header straddles a 64 KiB boundary
     let pad_before = if big { Some(rng.below(bodies.len() as u64) as usize) } else { None };
     let mut offsets: Vec<(u32, u16, usize)> = vec![];
+    let mut prev_inline = false;
+    let inline_ok = rng.chance(1, 8);
     for (idx, (n, g, body)) in bodies.iter().enumerate() {
         if pad_before == Some(idx) {
-            // comment padding: either one long line or many short lines; ends so that the next
-            // header starts 0..12 bytes before a multiple of 65536
+            // comment padding up to a multiple of 65536; three shapes
             let target_mult = 65536 * (1 + rng.below(2) as usize);
             let back = rng.below(13) as usize;
             let want = target_mult.saturating_sub(back);
-            if want > b.len() + 8 {
+            if want > b.len() + 2100 {
                 let total = want - b.len();
-                if rng.chance(1, 2) {
-                    b.push(b'%');
-                    b.extend(std::iter::repeat(b'A').take(total - 2));
-                    b.push(b'\n');
-                    notes.push("longline".into());
-                } else {
-                    let mut left = total;
-                    while left > 0 {
-                        let l = left.min(64);
-                        if l == 1 {
-                            b.push(b'\n');
-                        } else {
-                            b.push(b'%');
-                            b.extend(std::iter::repeat(b'B').take(l - 2));
-                            b.push(b'\n');
+                match rng.below(3) {
+                    0 => {
+                        // one long comment line
+                        b.push(b'%');
+                        b.extend(std::iter::repeat(b'A').take(total - 2));
+                        b.push(b'\n');
+                        notes.push("longline".into());
+                        notes.push(format!("straddle{}", back));
+                    }
+                    1 => {
+                        // many short comment lines
+                        let mut left = total;
+                        while left > 0 {
+                            let l = left.min(64);
+                            if l == 1 {
+                                b.push(b'\n');
+                            } else {
+                                b.push(b'%');
+                                b.extend(std::iter::repeat(b'B').take(l - 2));
+                                b.push(b'\n');
+                            }
+                            left -= l;
                         }
-                        left -= l;
+                        notes.push(format!("straddle{}", back));
+                    }
+                    _ => {
+                        // one comment line longer than CARRY_CAP that crosses the chunk boundary and
+                        // reads `N 0 obj` exactly where the carry is cut (boundary - 1024 + d)
+                        let victim = 1 + rng.below(next as u64 - 1) as u32;
+                        let d = *rng.pick(&[0usize, 0, 0, 1, 2]);
+                        let cut = target_mult - 1024 + d;
+                        let text = format!(" {} 0 obj ", victim);
+                        // line: '%' C… text(at cut-1) C… '\n', ending 40..300 bytes after the boundary
+                        let end = target_mult + 40 + rng.below(260) as usize;
+                        b.push(b'%');
+                        while b.len() < cut - 1 {
+                            b.push(b'C');
+                        }
+                        b.extend(text.as_bytes());
+                        while b.len() < end {
+                            b.push(b'C');
+                        }
+                        b.push(b'\n');
+                        notes.push(format!("cutline{} d{}", victim, d));
                     }
                 }
-                notes.push(format!("straddle{}", back));
             }
         }
         if rng.chance(1, 8) {
             b.extend(format!("% {} 0 obj is defined below", n).as_bytes());
             b.extend(eol(rng, style));
         }
+        // header shapes: blanks, tabs, leading zeros, leading blanks, trailing blank
+        let lead = if rng.chance(1, 10) { "  " } else { "" };
+        b.extend(lead.as_bytes());
         offsets.push((*n, *g, b.len()));
-        match rng.below(8) {
+        match rng.below(10) {
             0 => b.extend(format!("{}  {}  obj", n, g).as_bytes()),
             1 => b.extend(format!("{} {} obj ", n, g).as_bytes()),
+            2 => b.extend(format!("{}\t{}\tobj", n, g).as_bytes()),
+            3 => b.extend(format!("0{} 0{} obj", n, g).as_bytes()),
             _ => b.extend(format!("{} {} obj", n, g).as_bytes()),
         }
+        let _ = prev_inline;
         b.extend(eol(rng, style));
         b.extend(body);
         b.extend(eol(rng, style));
         b.extend(b"endobj");
-        b.extend(eol(rng, style));
+        // (1 in 25) the next header follows `endobj` on the same line
+        if inline_ok && idx + 1 < bodies.len() && pad_before != Some(idx + 1) && rng.chance(1, 4) {
+            b.push(b' ');
+            prev_inline = true;
+            notes.push("inline".into());
+        } else {
+            prev_inline = false;
+            b.extend(eol(rng, style));
+        }
     }
     let xref_pos = b.len();
     let size = next;
@@ -346,7 +408,7 @@ fn build_intact(rng: &mut Rng, big: bool, with_decoy: bool) -> (Layout, String) 
         b.extend(format!("{:010} {:05} n \n", off, g).as_bytes());
     }
     let trailer_pos = b.len();
-    b.extend(format!("trailer\n<< /Size {} /Root 1 {} R /Info {} 0 R >>\n", size, cat_gen, info).as_bytes());
+    b.extend(format!("trailer\n<< /Size {} /Root {} {} R /Info {} 0 R >>\n", size, cat_num, cat_gen, info).as_bytes());
     let startxref_pos = b.len();
     b.extend(format!("startxref\n{}\n%%EOF\n", xref_pos).as_bytes());
     (
@@ -373,7 +435,8 @@ fn apply(op: &str, l: &Layout, cur: &mut Vec<u8>) {
         cur.extend(tail);
     } else if let Some(n) = op.strip_prefix("trunc") {
         let n: usize = n.parse().unwrap_or(0);
-        let keep = cur.len().saturating_sub(n);
+        // never into the object bodies: the damage catalogue is about the cross-reference data
+        let keep = cur.len().saturating_sub(n).max(l.xref_pos.min(cur.len()));
         cur.truncate(keep);
     } else if let Some(k) = op.strip_prefix("shift") {
         let k: i64 = k.parse().unwrap_or(0);
